@@ -421,6 +421,29 @@ func runC05(r *R) {
 			if in != out || ain != aout {
 				r.Fail("component-still-running", "pool %d: provider Run entered %d returned %d, aggregator Run entered %d returned %d after Wait returned; %s", pi, in, out, ain, aout, desc)
 			}
+			// whatever way the run ended - success, a failing component, a panicking shot, a cancel - every ammo item an
+			// instance took is given back to the provider exactly once by the time everything has stopped
+			acq, rel := map[any]int{}, map[any]int{}
+			for _, e := range rt.log.Snapshot() {
+				switch e.Kind {
+				case "acquire":
+					acq[e.Ammo]++
+				case "release":
+					rel[e.Ammo]++
+				}
+			}
+			for a, n := range acq {
+				if rel[a] != n {
+					r.Fail("ammo-not-released/"+c05Kind(pools), "pool %d: ammo %v was acquired %d times and released %d times by the time Engine.Wait returned; %s", pi, a, n, rel[a], desc)
+					break
+				}
+			}
+			for a, n := range rel {
+				if acq[a] < n {
+					r.Fail("ammo-released-twice/"+c05Kind(pools), "pool %d: ammo %v was released %d times, acquired %d times; %s", pi, a, n, acq[a], desc)
+					break
+				}
+			}
 			if rt.spec.Closable {
 				closes := map[any]int{}
 				bound := map[any]bool{}
